@@ -107,18 +107,20 @@ Proof.
 Qed.
 
 Definition opar_inv (op : list (Z * Z)) (sto : store) (OA : list value) : Prop :=
-  forall x i, map_get op x = Some i ->
+  forall x i, x <> name_blank -> map_get op x = Some i ->
     exists v, store_get sto x = Some v /\ is_vint v = false /\ nth_error OA (Z.to_nat i) = Some v /\ 0 <= i < len OA.
 Definition ipar_inv (ip : list (Z * Z)) (sto : store) (IA : list Z) : Prop :=
-  forall x i, map_get ip x = Some i ->
+  forall x i, x <> name_blank -> map_get ip x = Some i ->
     exists z, store_get sto x = Some (VInt z) /\ nth_error IA (Z.to_nat i) = Some z /\ 0 <= i < len IA.
 
 Lemma nth_error_snoc {A} (l : list A) x : nth_error (l ++ [x]) (Z.to_nat (len l)) = Some x.
 Proof. unfold len. rewrite Nat2Z.id. rewrite nth_error_app2 by lia. now rewrite Nat.sub_diag. Qed.
 
+(* parameters with distinct names - blank parameters aside: they share the name [name_blank], the compiler's tables and
+   the store keep the last of them, and nothing reads it (the invariants do not speak about it) *)
 Lemma split_bind : forall ps args op ip no ni sto op' ip' no' ni' sto' OA IA,
   split_params ps op ip no ni = COk (op', ip', no', ni') -> bind_params ps args sto = Some sto' ->
-  NoDup (map fst ps) -> (forall x, In x (map fst ps) -> map_get op x = None /\ map_get ip x = None) ->
+  NoDupNB (map fst ps) -> (forall x, x <> name_blank -> In x (map fst ps) -> map_get op x = None /\ map_get ip x = None) ->
   no = len OA -> ni = len IA -> opar_inv op sto OA -> ipar_inv ip sto IA ->
   no' = len (OA ++ args_o 0 0 args) /\ ni' = len (IA ++ args_i 0 0 args) /\
   opar_inv op' sto' (OA ++ args_o 0 0 args) /\ ipar_inv ip' sto' (IA ++ args_i 0 0 args).
@@ -128,23 +130,28 @@ Proof.
     cbn [args_o args_i]. rewrite !app_nil_r. auto.
   - destruct args as [|v args]; cbn [bind_params] in Hb; [discriminate|]. destruct (has_ty v t) eqn:Hty; [|discriminate].
     cbn [split_params] in Hs. destruct (negb (supported t)); [discriminate|].
-    cbn [map fst] in Hnd. apply NoDup_cons_iff in Hnd as [Hx Hnd'].
-    destruct (Hfresh x (or_introl eq_refl)) as [Hxo Hxi].
+    cbn [map fst] in Hnd.
+    (* every other name that matters is different from x *)
+    assert (Hnd' : NoDupNB (map fst ps)) by (inversion Hnd; assumption).
+    assert (Hother : forall y, y <> name_blank -> (In y (map fst ps) \/ map_get op y <> None \/ map_get ip y <> None) -> y <> x).
+    { intros y Hyb Hy ->. inversion Hnd as [|l Hl E|x' l Hxb Hnotin Hl E]; subst; [congruence|].
+      destruct Hy as [Hy|Hy]; [contradiction|]. destruct (Hfresh x Hxb (or_introl eq_refl)) as [Ho Hi]. destruct Hy; congruence. }
     pose proof (has_ty_is_vint _ _ Hty) as Hk.
     cbn [args_o args_i]. unfold boxed. cbn [Z.eqb negb andb]. rewrite andb_true_r, args_o_shift, args_i_shift.
     destruct (is_int t) eqn:Eit.
     + assert (Hv : exists z, v = VInt z) by (destruct t; try discriminate; destruct v; cbn in Hk; try discriminate; eauto).
       destruct Hv as [z ->]. cbn [is_vint app].
       destruct (IH args op (map_set ip x ni) no (ni + 1) (store_set sto x (VInt z)) _ _ _ _ _ OA (IA ++ [z]) Hs Hb Hnd') as (H1 & H2 & H3 & H4).
-      * intros y Hy. destruct (Hfresh y (or_intror Hy)) as [Ho Hi]. split; [exact Ho|]. rewrite map_get_set_other; [exact Hi|]. intros ->. contradiction.
+      * intros y Hyb Hy. destruct (Hfresh y Hyb (or_intror Hy)) as [Ho Hi]. split; [exact Ho|]. rewrite map_get_set_other; [exact Hi|].
+        intros E. symmetry in E. revert E. apply Hother; auto.
       * exact Hno.
       * rewrite len_app'. change (len [z]) with 1. lia.
-      * intros y i Hy. destruct (Hop _ _ Hy) as (w & Hs1 & Hr). exists w. split; [|exact Hr].
-        rewrite store_get_set_other; [exact Hs1|]. intros ->. congruence.
-      * intros y i Hy. destruct (Z.eq_dec y x) as [->|Hne].
+      * intros y i Hyb Hy. destruct (Hop _ _ Hyb Hy) as (w & Hs1 & Hr). exists w. split; [|exact Hr].
+        rewrite store_get_set_other; [exact Hs1|]. intros E. symmetry in E. revert E. apply Hother; [exact Hyb|]. right. left. congruence.
+      * intros y i Hyb Hy. destruct (Z.eq_dec y x) as [->|Hne].
         -- rewrite map_get_set_same in Hy. inversion Hy as [Ei0]. rewrite <- Ei0, Hni. exists z. split; [apply store_get_set_same|].
            split; [apply nth_error_snoc|]. rewrite len_app'. change (len [z]) with 1. pose proof (len_nonneg' IA). lia.
-        -- rewrite map_get_set_other in Hy by congruence. destruct (Hip _ _ Hy) as (z' & Hs1 & Hn & Hr). exists z'.
+        -- rewrite map_get_set_other in Hy by congruence. destruct (Hip _ _ Hyb Hy) as (z' & Hs1 & Hn & Hr). exists z'.
            split; [rewrite store_get_set_other; [exact Hs1|congruence]|]. split; [rewrite nth_error_app1; [exact Hn|unfold len in *; lia]|].
            rewrite len_app'. change (len [z]) with 1. lia.
       * rewrite <- app_assoc in H2, H4. cbn [app] in H2, H4. auto.
@@ -153,17 +160,18 @@ Proof.
       assert (Ei : (match v with VInt z => [z] | _ => [] end) = []) by (destruct v; cbn in Hv; congruence).
       rewrite Ei. cbn [app].
       destruct (IH args (map_set op x no) ip (no + 1) ni (store_set sto x v) _ _ _ _ _ (OA ++ [v]) IA Hs Hb Hnd') as (H1 & H2 & H3 & H4).
-      * intros y Hy. destruct (Hfresh y (or_intror Hy)) as [Ho Hi]. split; [|exact Hi]. rewrite map_get_set_other; [exact Ho|]. intros ->. contradiction.
+      * intros y Hyb Hy. destruct (Hfresh y Hyb (or_intror Hy)) as [Ho Hi]. split; [|exact Hi]. rewrite map_get_set_other; [exact Ho|].
+        intros E. symmetry in E. revert E. apply Hother; auto.
       * rewrite len_app'. change (len [v]) with 1. lia.
       * exact Hni.
-      * intros y i Hy. destruct (Z.eq_dec y x) as [->|Hne].
+      * intros y i Hyb Hy. destruct (Z.eq_dec y x) as [->|Hne].
         -- rewrite map_get_set_same in Hy. inversion Hy as [Ei0]. rewrite <- Ei0, Hno. exists v. split; [apply store_get_set_same|]. split; [exact Hv|].
            split; [apply nth_error_snoc|]. rewrite len_app'. change (len [v]) with 1. pose proof (len_nonneg' OA). lia.
-        -- rewrite map_get_set_other in Hy by congruence. destruct (Hop _ _ Hy) as (w & Hs1 & Hnv & Hn & Hr). exists w.
+        -- rewrite map_get_set_other in Hy by congruence. destruct (Hop _ _ Hyb Hy) as (w & Hs1 & Hnv & Hn & Hr). exists w.
            split; [rewrite store_get_set_other; [exact Hs1|congruence]|]. split; [exact Hnv|]. split; [rewrite nth_error_app1; [exact Hn|unfold len in *; lia]|].
            rewrite len_app'. change (len [v]) with 1. lia.
-      * intros y i Hy. destruct (Hip _ _ Hy) as (z' & Hs1 & Hr). exists z'. split; [|exact Hr].
-        rewrite store_get_set_other; [exact Hs1|]. intros ->. congruence.
+      * intros y i Hyb Hy. destruct (Hip _ _ Hyb Hy) as (z' & Hs1 & Hr). exists z'. split; [|exact Hr].
+        rewrite store_get_set_other; [exact Hs1|]. intros E. symmetry in E. revert E. apply Hother; [exact Hyb|]. right. right. congruence.
       * rewrite <- app_assoc in H1, H3. cbn [app] in H1, H3. auto.
 Qed.
 
@@ -202,16 +210,8 @@ Proof.
 Qed.
 
 (* the guard on a function: junk-safe expressions, well-formed returns/assignments, distinct parameter names *)
-Definition fun_ok (fd : fundecl) : bool := safe_fun fd && nodup_names (fd_params fd) && rets_ok_fun fd.
+Definition fun_ok (fd : fundecl) : bool := safe_fun fd && nodup_nonblank (fd_params fd) && rets_ok_fun fd.
 
-Lemma nodup_names_NoDup l : nodup_names l = true -> NoDup (map fst l).
-Proof.
-  induction l as [|[x t] l IH]; cbn [nodup_names map fst]; intros H; [constructor|].
-  apply andb_prop in H as [H1 H2]. constructor; [|auto]. intros Hi. apply negb_true_iff in H1.
-  apply in_map_iff in Hi as ([y u] & E & Hi). cbn [fst] in E. subst y.
-  assert (existsb (fun '(y, _) => x =? y) l = true); [|congruence].
-  apply existsb_exists. exists (x, u). split; [exact Hi|apply Z.eqb_refl].
-Qed.
 
 Definition fun_result (fd : fundecl) (o : out) : eres (option value) :=
   match o with
@@ -263,7 +263,7 @@ Lemma fun_runs f fd cf : compile_fun cfg fd = COk cf -> good cf -> fun_ok fd = t
     = ret cfg (ExprCorrect.S (link cf) B IB (len O) (len IO) K pc' L' IL' X' XI' vl') cr.
 Proof.
   intros Hcf Hgood Hok args sto0 o r Hbp Hexec Hres O IO vl K B IB.
-  unfold fun_ok in Hok. apply andb_prop in Hok as [Hok _]. apply andb_prop in Hok as [Hsafe Hnd]. apply nodup_names_NoDup in Hnd.
+  unfold fun_ok in Hok. apply andb_prop in Hok as [Hok _]. apply andb_prop in Hok as [Hsafe Hnd]. apply nodup_nonblank_NoDupNB in Hnd.
   unfold compile_fun in Hcf.
   cinv Hcf. rename a into rt. destruct (negb (supported rt)); [discriminate|].
   cinv Hcfb. destruct a as [[[op ip] nobj] nint]. destruct ((256 <? nobj) || (256 <? nint)) eqn:Hparlim; [discriminate|]. cinv Hcfbb. destruct a as [st rb].
@@ -274,13 +274,13 @@ Proof.
   set (fn := link cf).
   (* parameters *)
   destruct (split_bind _ _ _ _ _ _ _ _ _ _ _ _ [] [] Hcfba Hbp Hnd) as (Hno & Hni & Hop & Hip);
-    try reflexivity; try (intros x i Hx; discriminate). { intros x _. auto. }
+    try reflexivity; try (intros x i _ Hx; discriminate). { intros x _ _. auto. }
   cbn [app] in Hno, Hni, Hop, Hip.
   assert (Hpar : params_ok env B IB (len O) (len IO) sto0).
   { split.
-    - intros x i Hx. destruct (Hop _ _ Hx) as (v & Hs & Hnv & Hn & Hr). exists v. split; [exact Hs|]. split; [exact Hnv|].
+    - intros x i Hxb Hx. destruct (Hop _ _ Hxb Hx) as (v & Hs & Hnv & Hn & Hr). exists v. split; [exact Hs|]. split; [exact Hnv|].
       subst B. rewrite nth_bottom_rev_args by exact Hr. split; [exact Hn|]. rewrite len_app', len_rev. pose proof (len_nonneg' O). lia.
-    - intros x i _ Hx. destruct (Hip _ _ Hx) as (z & Hs & Hn & Hr). exists z. split; [exact Hs|].
+    - intros x i Hxb _ Hx. destruct (Hip _ _ Hxb Hx) as (z & Hs & Hn & Hr). exists z. split; [exact Hs|].
       subst IB. rewrite nth_bottom_rev_args by exact Hr. split; [exact Hn|]. rewrite len_app', len_rev. pose proof (len_nonneg' IO). lia. }
   (* locals *)
   assert (Hlwf : lwf cfg env st).
@@ -434,14 +434,14 @@ Proof.
   - pose proof Hcf as Hcf2. unfold compile_fun in Hcf2. (* nobj = number of object arguments *)
     cinv Hcf2. destruct (negb (supported a)); [discriminate|]. cinv Hcf2b. destruct a0 as [[[op ip] nobj] nint]. destruct ((256 <? nobj) || (256 <? nint)); [discriminate|]. cinv Hcf2bb. destruct a0 as [st rb].
     destruct (negb (jumps_fit _)); [discriminate|]. rewrite (lk_nobj _ _ Hlink). inversion Hcf2bbb; subst cf. cbn [cf_nobj].
-    unfold fun_ok in Hok. apply andb_prop in Hok as [Hok _]. apply andb_prop in Hok as [_ Hnd]. apply nodup_names_NoDup in Hnd.
-    destruct (split_bind _ _ _ _ _ _ _ _ _ _ _ _ [] [] Hcf2ba Ebp Hnd) as (Hno & _); try reflexivity; try (intros x i Hx; discriminate). { intros x _. auto. }
+    unfold fun_ok in Hok. apply andb_prop in Hok as [Hok _]. apply andb_prop in Hok as [_ Hnd]. apply nodup_nonblank_NoDupNB in Hnd.
+    destruct (split_bind _ _ _ _ _ _ _ _ _ _ _ _ [] [] Hcf2ba Ebp Hnd) as (Hno & _); try reflexivity; try (intros x i _ Hx; discriminate). { intros x _ _. auto. }
     cbn [app] in Hno. rewrite Hno, len_rev. lia.
   - pose proof Hcf as Hcf2. unfold compile_fun in Hcf2.
     cinv Hcf2. destruct (negb (supported a)); [discriminate|]. cinv Hcf2b. destruct a0 as [[[op ip] nobj] nint]. destruct ((256 <? nobj) || (256 <? nint)); [discriminate|]. cinv Hcf2bb. destruct a0 as [st rb].
     destruct (negb (jumps_fit _)); [discriminate|]. rewrite (lk_nint _ _ Hlink). inversion Hcf2bbb; subst cf. cbn [cf_nint].
-    unfold fun_ok in Hok. apply andb_prop in Hok as [Hok _]. apply andb_prop in Hok as [_ Hnd]. apply nodup_names_NoDup in Hnd.
-    destruct (split_bind _ _ _ _ _ _ _ _ _ _ _ _ [] [] Hcf2ba Ebp Hnd) as (_ & Hni & _); try reflexivity; try (intros x i Hx; discriminate). { intros x _. auto. }
+    unfold fun_ok in Hok. apply andb_prop in Hok as [Hok _]. apply andb_prop in Hok as [_ Hnd]. apply nodup_nonblank_NoDupNB in Hnd.
+    destruct (split_bind _ _ _ _ _ _ _ _ _ _ _ _ [] [] Hcf2ba Ebp Hnd) as (_ & Hni & _); try reflexivity; try (intros x i _ Hx; discriminate). { intros x _ _. auto. }
     cbn [app] in Hni. rewrite Hni, len_rev. lia.
 Qed.
 
